@@ -1,9 +1,11 @@
 package sim
 
 import (
+	"bytes"
 	"crypto"
 	"encoding/asn1"
 	"errors"
+	"fmt"
 	"io"
 	"math/big"
 
@@ -26,6 +28,11 @@ type Entropy struct {
 	FailAt int // error once this many bytes were delivered; -1 = never
 	Short  int // deliver at most this many bytes per Read (legal short reads); 0 = off
 	Fired  bool
+	// Partial: the failing Read hands out the bytes it still has TOGETHER with
+	// the error (io.Reader allows n > 0 with err != nil); Once: the source is
+	// healthy again after that one failing Read (a transient device glitch).
+	Partial bool
+	Once    bool
 }
 
 // InjectedAs, when non-nil, is the error VALUE every failing seam of the current
@@ -49,7 +56,10 @@ var ErrEntropy = errors.New("verif: injected entropy source failure")
 func NewEntropy(seed uint64) *Entropy { return &Entropy{state: seed | 1, FailAt: -1} }
 
 func (e *Entropy) Read(p []byte) (int, error) {
-	if len(p) == 1 && e.FailAt != 0 {
+	// (a source that fails once and recovers must not spend its one failure on
+	// that probe read: randutil.MaybeReadByte discards the outcome of its Read,
+	// on a coin flip, so the failure would be lost inside the standard library)
+	if len(p) == 1 && (e.FailAt != 0 || e.Once) {
 		p[0] = 0x5a
 		return 1, nil
 	}
@@ -64,12 +74,29 @@ func (e *Entropy) Read(p []byte) (int, error) {
 	if e.FailAt >= 0 {
 		if e.n >= e.FailAt {
 			e.Fired = true
+			if e.Once {
+				e.FailAt = -1
+			}
 			return 0, injected(ErrEntropy)
 		}
 		if e.n+n > e.FailAt {
 			n = e.FailAt - e.n
+			if e.Partial {
+				e.fill(p[:n])
+				e.Fired = true
+				if e.Once {
+					e.FailAt = -1
+				}
+				return n, injected(ErrEntropy)
+			}
 		}
 	}
+	e.fill(p[:n])
+	return n, nil
+}
+
+func (e *Entropy) fill(p []byte) {
+	n := len(p)
 	for i := 0; i < n; i++ {
 		if (e.n+i)%8 == 0 {
 			e.state = tape.SplitMix64(e.state)
@@ -77,7 +104,6 @@ func (e *Entropy) Read(p []byte) (int, error) {
 		p[i] = byte(e.state >> (8 * uint((e.n+i)%8)))
 	}
 	e.n += n
-	return n, nil
 }
 
 // ---------------------------------------------------------------------------
@@ -126,6 +152,7 @@ func (s *SpySigner) Algorithm() cose.Algorithm { return s.Alg }
 
 func (s *SpySigner) Sign(rand io.Reader, content []byte) ([]byte, error) {
 	s.Calls = append(s.Calls, SpyCall{Content: append([]byte{}, content...)})
+	seamInterlude("signer "+s.Tag, content, s.Calls[len(s.Calls)-1].Content)
 	if s.Log != nil {
 		*s.Log = append(*s.Log, "sign:"+s.Tag)
 	}
@@ -206,6 +233,7 @@ func (v *SpyVerifier) Algorithm() cose.Algorithm { return v.Alg }
 
 func (v *SpyVerifier) Verify(content, signature []byte) error {
 	v.Calls = append(v.Calls, SpyCall{Content: append([]byte{}, content...), Signature: append([]byte{}, signature...)})
+	seamInterlude("verifier "+v.Tag, content, v.Calls[len(v.Calls)-1].Content)
 	if v.Log != nil {
 		*v.Log = append(*v.Log, "verify:"+v.Tag)
 	}
@@ -220,6 +248,65 @@ func (v *SpyVerifier) Verify(content, signature []byte) error {
 		return cose.ErrVerification
 	}
 	return v.Inner.Verify(content, signature)
+}
+
+// ---------------------------------------------------------------------------
+// re-entrant seams: an application's Signer or Verifier may do COSE work of
+// its own before it looks at the bytes it was handed (check an endorsement of
+// the key, log a signed audit record).  Whatever go-cose handed it must still
+// be the same bytes afterwards.
+
+// SeamInterludes switches the interlude on (set per run by the worker for the
+// properties whose worlds are single-task; never inside C18's concurrent
+// blocks, where package-level state of the harness would race).
+var SeamInterludes bool
+
+var (
+	seamDepth   int
+	seamChanged string
+	interludeM1 *cose.Sign1Message
+	interludeMS *cose.SignMessage
+	interludeCS *cose.Countersignature
+)
+
+type acceptAll struct{ alg cose.Algorithm }
+
+func (a acceptAll) Algorithm() cose.Algorithm        { return a.alg }
+func (a acceptAll) Verify(content, sig []byte) error { return nil }
+
+func seamInterlude(who string, content, snapshot []byte) {
+	if !SeamInterludes || seamDepth > 0 {
+		return
+	}
+	seamDepth++
+	defer func() { seamDepth--; recover() }()
+	if interludeM1 == nil {
+		big := bytes.Repeat([]byte{0xee}, 700)
+		hdr := func() cose.Headers {
+			return cose.Headers{Protected: cose.ProtectedHeader{cose.HeaderLabelAlgorithm: cose.AlgorithmES256}, Unprotected: cose.UnprotectedHeader{}}
+		}
+		interludeM1 = &cose.Sign1Message{Headers: hdr(), Payload: big, Signature: []byte{0xee}}
+		interludeMS = &cose.SignMessage{Headers: cose.Headers{Protected: cose.ProtectedHeader{}, Unprotected: cose.UnprotectedHeader{}}, Payload: big,
+			Signatures: []*cose.Signature{{Headers: hdr(), Signature: []byte{0xee}}}}
+		interludeCS = &cose.Countersignature{Headers: hdr(), Signature: []byte{0xee}}
+	}
+	v := acceptAll{cose.AlgorithmES256}
+	// one structure of each kind is built: Sig_structure of a COSE_Sign1, of a
+	// COSE_Signature, and a Countersign_structure; plus one encoding
+	interludeM1.Verify(nil, v)
+	interludeMS.Verify(nil, v)
+	interludeCS.Verify(v, interludeM1, nil)
+	interludeM1.MarshalCBOR()
+	if !bytes.Equal(content, snapshot) && seamChanged == "" {
+		seamChanged = fmt.Sprintf("%s: handed %x..., which read %x... after the seam had verified another message of its own before looking at it", who, head(snapshot, 48), head(content, 48))
+	}
+}
+
+func head(b []byte, n int) []byte {
+	if len(b) > n {
+		return b[:n]
+	}
+	return b
 }
 
 // ---------------------------------------------------------------------------
